@@ -1,0 +1,59 @@
+//go:build verif
+
+package tcpassembly
+
+import "time"
+
+// Hooks for runtime verification (build tag "verif"). They only read state,
+// under the locks the package itself uses, and let a controller suspend
+// goroutines at points where no lock is held.
+
+var verifYieldFn func(point string)
+
+// SetVerifYield installs the callback invoked at every yield point. It must
+// be set before the goroutines that use the package are started.
+func SetVerifYield(f func(point string)) { verifYieldFn = f }
+
+func verifYield(point string) {
+	if f := verifYieldFn; f != nil {
+		f(point)
+	}
+}
+
+// VerifPagesUsed returns the number of pages the assembler's page cache
+// counts as in use.
+func VerifPagesUsed(a *Assembler) int { return a.pc.used }
+
+// VerifConn describes one entry of the stream pool.
+type VerifConn struct {
+	Key          string
+	Closed       bool
+	QueuedPages  int
+	OldestQueued time.Time
+	FirstQueued  time.Time // seen time of the first (lowest sequence) queued page
+	LastSeen     time.Time
+	PagesCounter int // the package's own conn.pages counter
+	Stream       Stream
+}
+
+// VerifPoolSnapshot lists the connections currently in the pool. Each entry
+// is read under that connection's own mutex.
+func VerifPoolSnapshot(p *StreamPool) []VerifConn {
+	var out []VerifConn
+	for _, c := range p.connections() {
+		c.mu.Lock()
+		v := VerifConn{Key: c.key.String(), Closed: c.closed, PagesCounter: c.pages, Stream: c.stream, LastSeen: c.lastSeen}
+		if c.first != nil {
+			v.FirstQueued = c.first.Seen
+		}
+		for pg := c.first; pg != nil; pg = pg.next {
+			if v.QueuedPages == 0 || pg.Seen.Before(v.OldestQueued) {
+				v.OldestQueued = pg.Seen
+			}
+			v.QueuedPages++
+		}
+		c.mu.Unlock()
+		out = append(out, v)
+	}
+	return out
+}
